@@ -10,7 +10,8 @@ CASES_HEADER = "Require Import Nib.C06.Model Nib.C06.Spec Nib.C06.Check."
 CASE_TYPE = "case"
 MISMATCH_FN = "mismatch"
 VIOLATES_FN = "violates"
-RULE = ("case = one history on a fresh chain through BeginBlock/DeliverTx/EndBlock/Commit: bank funding + metadata, "
+RULE = ("case = one history on a fresh chain through BeginBlock/DeliverTx/EndBlock/Commit: bank funding + metadata "
+        "(ordinary coins and the gas coin unibi, which is mapped as a coin-born FunToken in ~half of the cases), "
         "1-3 embedded ERC20s (TestERC20 / TestERC20TransferWithFee / TestERC20MaliciousTransfer), then 10-24 ops drawn from "
         "MsgCreateFunToken (coin / erc20, incl. duplicates and nonexistent contracts), MsgConvertCoinToEvm (both births), "
         "precompile sendToBank / sendToEvm / bankMsgSend (direct from an EOA or through a forwarder contract: plain, "
@@ -30,7 +31,8 @@ ASSUMPTIONS = [
     "no other module mints or burns a mapped 'erc20/0x…' denom, and nothing but the bank send paths moves the module's escrow",
     "atomicity of a reverted frame / failed tx is taken from C04 in the model (Framed … = no change) and CHECKED against the "
     "implementation by the correspondence run (sub-frame reverts, top-level reverts, swallowed failures, out-of-gas)",
-    "the gas coin unibi is not a mapped denom in the model (fees are not modelled)",
+    "transaction gas fees are not modelled: unibi balances of the four gas-paying accounts are not compared, the unibi bank "
+    "supply is compared relative to the part of genesis outside the modelled accounts; the CreateFunToken fee (burned) IS modelled",
 ]
 TRUSTED = ["hand-assembled forwarder contract (215 bytes) and returns-false ERC20 (182 bytes), listings in coq/C06/README.md"]
 HARNESS_TIMEOUT = {"quick": 600, "thorough": 7200}
@@ -61,6 +63,8 @@ def _n(x):
 def _den(d):
     if d is None:
         return "(DCoin 998%nat)"
+    if d["k"] == "g":
+        return "DGas"
     return "(%s %s)" % ("DErc" if d["k"] == "e" else "DCoin", _n(d["n"]))
 
 
@@ -115,9 +119,9 @@ def _op_of(op, tx_ok, ntok):
                 beh = beh % ntok
             base = "Deploy %s %s %s" % (_n(a), beh, _z(sup))
     elif k == "create_coin":
-        base = "CreateFromCoin %s" % _den(op.get("d"))
+        base = "CreateFromCoin %s %s" % (_n(a), _den(op.get("d")))
     elif k == "create_erc20":
-        base = "CreateFromErc20 %s" % _n(t)
+        base = "CreateFromErc20 %s %s" % (_n(a), _n(t))
     elif k == "convert":
         base = "ConvertCoinToEvm %s %s %s %s" % (_n(a), _den(op.get("d")), _amt(op), _n(to))
     elif k == "send_to_bank":
